@@ -19,6 +19,7 @@ import Gv.Proofs.NexusHeader
 import Gv.Proofs.PhylipMulti
 import Gv.Proofs.Utf8Norm
 import Gv.Proofs.Utf8Header
+import Gv.Proofs.FastaRunes
 /-!
 C03 — parsers terminate on every input with an error or a well-formed result.
 
@@ -959,6 +960,29 @@ example : Fasta.parseBytes true {} [62, 97, 10, 65, 67, 0xFF, 10, 62, 98, 10, 65
     Fasta.isEOL, Fasta.identChar, Fasta.afterRun, Fasta.GT, NL, CR, Fasta.stripSpaces, Fasta.noSpaces, SP,
     Bag.add, Bag.find]
   decide
+
+/-! ### FASTA: the rune lexer IS the byte lexer on `Utf8.norm`
+
+`Model/Fmt/FastaRunes.lean` mirrors `io/fasta/lexer.go` on runes (`read()` = next rune or rune 0, `unread`, literals written
+with `WriteRune`).  The byte lexer `Fasta.scan` / `Fasta.lex`, on which `Fasta.parse` and all FASTA theorems are built, run
+on `Utf8.norm bs` yields exactly the tokens of the rune lexer on `Utf8.runes bs` - proved, not argued. -/
+
+/-- one `Scan`: for every list of runes, the byte lexer on the written runes returns the rune lexer's token (literal
+written with `WriteRune`) and leaves the written rest -/
+theorem fasta_rune_scan (rs : List Nat) :
+    Fasta.scan (FastaRunes.enc rs) = ((FastaRunes.scanRunes rs).1.bytes, FastaRunes.enc (FastaRunes.scanRunes rs).2) :=
+  Gv.Proofs.FastaRunes.scan_enc rs
+
+/-- the whole token list, ALL byte strings: `Fasta.parseBytes` reads its input only through `Fasta.lex (Utf8.norm bs)`,
+which is the token list of the rune lexer on the runes of the raw input -/
+theorem fasta_rune_lexer (bs : List Byte) :
+    Fasta.lex (Utf8.norm bs) =
+      (FastaRunes.lexRunes ((Utf8.runes bs).length + 1) (Utf8.runes bs)).map FastaRunes.Tok.bytes :=
+  Gv.Proofs.FastaRunes.lex_norm bs
+
+/-- non-vacuity: `>a\nA\xff\n` - the rune lexer sees U+FFFD, the parser receives `EF BF BD` -/
+example : FastaRunes.lexRunes 8 (Utf8.runes [62, 97, 10, 65, 0xFF, 10]) =
+    [.start, .ident [97], .eol, .ident [65, 0xFFFD], .eol, .eof] := by decide
 
 /-! ### Phylip, partition, Clustal, Stockholm, Nexus on the raw input -/
 
